@@ -1,4 +1,31 @@
 import XPathV.Model.Api
-/-! # Property C01 — theorems (placeholder header; filled in below) -/
+import XPathV.Lemmas.Facts
+/-!
+# C01 — predicate-free location paths select exactly the XPath 1.0 node-set
+-/
 namespace XPathV.Theorems.C01
+open XPathV XPathV.Model XPathV.Facts
+
+/-- T0 (F4): the axis switch of `processAxis` maps each axis name to the iterator and flag
+settings the model's `axisPlan` assumes -/
+theorem axis_table_ok : Generated.axisTable = [
+    ⟨"ancestor", [("ancestorQuery", [])], true⟩,
+    ⟨"ancestor-or-self", [("ancestorQuery", ["Self=true"])], true⟩,
+    ⟨"attribute", [("attributeQuery", [])], false⟩,
+    ⟨"child", [("childQuery", []), ("cachedChildQuery", [])], false⟩,
+    ⟨"descendant", [("descendantOverDescendantQuery", ["MatchSelf=false"]), ("descendantQuery", [])], true⟩,
+    ⟨"descendant-or-self", [("descendantOverDescendantQuery", ["MatchSelf=true"]), ("descendantQuery", ["Self=true"])], true⟩,
+    ⟨"following", [("followingQuery", [])], true⟩,
+    ⟨"following-sibling", [("followingQuery", ["Sibling=true"])], false⟩,
+    ⟨"parent", [("parentQuery", [])], false⟩,
+    ⟨"preceding", [("precedingQuery", [])], true⟩,
+    ⟨"preceding-sibling", [("precedingQuery", ["Sibling=true"])], false⟩,
+    ⟨"self", [("selfQuery", [])], false⟩,
+    ⟨"namespace", [], false⟩] ∧ Generated.axisDefaultErrors = true := by decide
+
+/-- T0 (F4): the `//name` shortcut fires only for `descendant-or-self::node()` (the pinned condition
+lacked the node-test conjuncts and dropped the step's name test) -/
+theorem shortcut_condition_ok : Generated.shortcutCondSrc =
+    "!(root.Input==nil) && (flags&flagsEnum.Filter)==0 && root.AxisType==\"child\"&&(root.Input.Type()==nodeAxis) && input:=root.Input.(*axisNode);input.AxisType==\"descendant-or-self\"&&input.typeTest==allNode&&input.LocalName==\"\"&&input.Prefix==\"\"" := rfl
+
 end XPathV.Theorems.C01
